@@ -6,9 +6,11 @@ CONSTANTS
   MaxAtt = 3
   MaxCuts = 1
   MaxProxies = 1
+  MaxDrops = 0
   Dev_NoCleanup = TRUE
   Dev_RouterFirst = TRUE
   Dev_NoLease = TRUE
+  Dev_StaleKept = TRUE
   Dev_StagingUnchecked = FALSE
   Dev_IdReuse = FALSE
   Dev_LookupStaged = FALSE
